@@ -296,3 +296,35 @@ func errorOf(resp *opdrv.Resp) string {
 	}
 	return fmt.Sprintf("status-%d", resp.Status)
 }
+
+// emptyIssuerObservation is NOT judged. It records what happens with a careless storage that holds a key under the
+// empty client id: an object without iss and client_id, signed with that key, is sent under client-A's client_id.
+// (The library compares iss with the object's client_id and the object's client_id with the outer one only when it is
+// non-empty, so the chain iss == "" == client_id passes and the key of "" is looked up.) vstore never holds such a key
+// in the judged cases; a careful storage would not either.
+func emptyIssuerObservation(run *ev.Run) {
+	for router := 0; router < 2; router++ {
+		var w *opdrv.World
+		var cl map[string]*vclient.Client
+		if pi := mon.Catch(func() { w, cl = newWorld(nil) }); pi != nil {
+			return
+		}
+		rk := poolByName["U.rsa"]
+		w.Store.AddClientKey("", rk.Key)
+		s := &tokSpec{Iss: absent, Sub: absent, IatAbs: true, ExpAbs: true, Signer: rk.Name, Kid: rk.Kid, Alg: "RS256", AlgKind: "registered", Tamper: "none", Extra: "none"}
+		setAud(s, "array", w.Issuer, nil)
+		s.ROClaims = map[string]any{"state": objState, "nonce": objNonce}
+		tok := s.build()
+		c := cl[cA]
+		outer := opdrv.AuthParams{ClientID: cA, RedirectURI: c.Redirects[0], ResponseType: "code", Scope: outerScope, State: outerState, Nonce: outerNonce,
+			Extra: map[string][]string{"request": {tok}}}
+		resp := w.Do(router, w.NewRequest("GET", "/authorize", outer.Values()))
+		res := "no override (" + errorOf(resp) + ")"
+		for _, e := range w.Store.JournalSince(resp.SeqStart) {
+			if ar, ok := e.Obj.(oidc.AuthRequest); ok && e.Method == "CreateAuthRequest" && ar.State == objState {
+				res = "override happened"
+			}
+		}
+		run.Count("observation_not_judged:object_without_iss_and_client_id_signed_with_a_key_stored_under_the_empty_client_id", opdrv.RouterNames[router]+": "+res)
+	}
+}
